@@ -120,9 +120,16 @@ def clean_knobs():
     return {"p_dotted": 0.0, "p_missing": 0.0, "p_copy": 0.0, "p_untitled_index": 0.05}
 
 
-def render_file(rel, e, body=""):
-    """text of one file; every file names its own relative path so that copies can be traced"""
+NON_ASCII = "\u00e9\u00fc\u00f1\u00df"      # valid in latin-1, cp1252 and utf-8
+ENCODINGS = ["latin-1", "cp1252", "utf-8"]
+
+
+def render_file(rel, e, body="", na=""):
+    """text of one file; every file names its own relative path so that copies can be traced.  [na]: non-ASCII
+    text put into the title and the body of every Markdown file"""
     src = f"SRC:{rel}"
+    if na:
+        body = f"Text {na} of {rel}.\n\n" + body
     if not e["n"].endswith(".md") and not e["n"].endswith(".md~"):
         return src + "\n"
     meta = []
@@ -131,7 +138,8 @@ def render_file(rel, e, body=""):
     for x in e["cp"]:
         meta.append(f"copy_subdir: {x}")
     if e["titled"]:
-        t = [f"title: T:{rel}", f"Title:   T:{rel}  ", f"TITLE: T:{rel}", f"title: T:{rel}"][e["style"] % 4]
+        tt = f"T:{rel}" + (f" {na}" if na else "")
+        t = [f"title: {tt}", f"Title:   {tt}  ", f"TITLE: {tt}", f"title: {tt}"][e["style"] % 4]
         pos = 0 if e["style"] < 2 else len(meta)
         meta.insert(pos, t)
         if e["style"] == 3:
@@ -157,7 +165,8 @@ def files_of(es, prefix=""):
             yield from files_of(e["es"], rel + "/")
 
 
-def build(root, es, bodies=None):
+def build(root, es, bodies=None, enc=None):
+    """enc: None = plain ASCII files; else every Markdown file carries non-ASCII text in that encoding"""
     root.mkdir(parents=True, exist_ok=True)
     for rel, e in files_of(es):
         p = root / rel
@@ -165,7 +174,8 @@ def build(root, es, bodies=None):
             p.mkdir(parents=True, exist_ok=True)
         else:
             p.parent.mkdir(parents=True, exist_ok=True)
-            p.write_text(render_file(rel, e, (bodies or {}).get(rel, "")))
+            p.write_bytes(render_file(rel, e, (bodies or {}).get(rel, ""), NON_ASCII if enc else "")
+                          .encode(enc or "ascii"))
 
 
 # ----------------------------------------------------------------------------- Coq terms
@@ -207,7 +217,7 @@ def case_term(proj, es, res, fl):
 # ----------------------------------------------------------------------------- implementation
 def node_dict(n):
     title = n.title
-    src = title[2:] if title.startswith("T:") else "?" + title
+    src = title[2:].split(" ")[0] if title.startswith("T:") else "?" + title
     file = src.rsplit("/", 1)[-1]
     loc = list(pathlib.PurePosixPath(str(n.location)).parts)
     if loc == ["."]:
@@ -215,17 +225,17 @@ def node_dict(n):
     name = file if file != "index.md" else (loc[-1] if loc else "")
     return {"name": name, "file": file, "loc": loc, "ordered": list(n.ordered_subpages),
             "copy": [str(x) for x in n.copy_subdir], "files": [str(x) for x in n.files],
-            "subs": [node_dict(c) for c in n.subpages], "path": str(n.path), "src": src}
+            "subs": [node_dict(c) for c in n.subpages], "path": str(n.path), "src": src, "title": title}
 
 
 def classify(text):
     """origin of one written file"""
     if text.startswith("<!--PAGE-->"):
         t = text[len("<!--PAGE-->"):]
-        return "Page", (t[2:] if t.startswith("T:") else "?" + t)
+        return "Page", (t[2:].split(" ")[0] if t.startswith("T:") else "?" + t)
     if "<html" in text[:400].lower() or text.lstrip().lower().startswith("<!doctype"):
         m = re.search(r"<h1>\s*T:([^<]*?)\s*</h1>", text)
-        return "Page", (html.unescape(m.group(1)) if m else "?")
+        return "Page", (html.unescape(m.group(1)).split(" ")[0] if m else "?")
     m = re.search(r"^SRC:(.*)$", text, flags=re.M)
     return "Copy", (m.group(1) if m else "?")
 
@@ -241,7 +251,7 @@ def list_out(pagedir):
     return out
 
 
-def impl_direct(es, proj):
+def impl_direct(es, proj, enc=None):
     """get_page_tree + PagetreePage.writeout of every node (the template is replaced by a marker)"""
     from ford.pagetree import get_page_tree
     from ford._markdown import MetaMarkdown
@@ -253,12 +263,12 @@ def impl_direct(es, proj):
 
     with F.Work() as w:
         pages = w.root / "pages"
-        build(pages, es)
+        build(pages, es, None, enc)
         out = w.root / "doc"
         out.mkdir()
         with F.quiet() as buf:
             try:
-                node = get_page_tree(pages, list(proj), out, MetaMarkdown())
+                node = get_page_tree(pages, list(proj), out, MetaMarkdown(), encoding=enc or "utf-8")
             except Exception as e:  # noqa
                 return "EXC:" + type(e).__name__, [], buf.getvalue()
             if node is None:
@@ -468,7 +478,7 @@ def breadcrumb_targets(doc, rel_file, text):
     return out
 
 
-def full_run(es, bodies, options=None):
+def full_run(es, bodies, options=None, enc=None):
     """a whole FORD run with page_dir; returns (node dict or str, files below doc/page, log, err, work)"""
     import ford
     captured = {}
@@ -479,8 +489,10 @@ def full_run(es, bodies, options=None):
         captured["tree"] = r
         return r
     w = F.Work({"src/a.f90": "module ma\n  !! A module.\n  integer :: x\nend module ma\n", "media/pic.png": "PNG\n"})
-    build(w.root / "pages", es, bodies)
+    build(w.root / "pages", es, bodies, enc)
     opts = {"page_dir": "./pages", "media_dir": "./media"}
+    if enc:
+        opts["encoding"] = enc
     opts.update(options or {})
     ford.get_page_tree = spy
     try:
@@ -502,7 +514,7 @@ def preorder(n):
         yield from preorder(c)
 
 
-def e2e_problems(es, bodies, pages, res, w, stats=None, proj=()):
+def e2e_problems(es, bodies, pages, res, w, stats=None, proj=(), enc=None):
     """the statement, tested directly on the output of a full run over a clean tree"""
     stats = stats if stats is not None else {"links_checked": 0, "max_depth": 0}
     doc = w.root / "doc"
@@ -518,8 +530,11 @@ def e2e_problems(es, bodies, pages, res, w, stats=None, proj=()):
             probs.append(f"page {out} for {src} is missing")
             continue
         text = f.read_text(errors="replace")
-        if f"<h1>T:{src}</h1>" not in text:
-            probs.append(f"page {out} is not the rendering of {src}")
+        if f"<h1>T:{src}{' ' + NON_ASCII if enc else ''}</h1>" not in text:
+            probs.append(f"page {out} is not the rendering of {src}"
+                         + (f" (title with the text {NON_ASCII!r} written in {enc})" if enc else ""))
+        if enc and f"Text {NON_ASCII} of {src}." not in text:
+            probs.append(f"page {out}: the body text {NON_ASCII!r} (written in {enc}) is not shown as such")
         probs += check_links(doc, out, text)
         stats["links_checked"] += len(LINK_RE.findall(text))
         nav = nav_targets(doc, out, text)
@@ -548,7 +563,8 @@ def e2e_problems(es, bodies, pages, res, w, stats=None, proj=()):
             for rel, e in files_of(tgt["es"], (d + "/" if d else "") + item + "/"):
                 if e is not None and rel not in want:
                     f = doc / "page" / rel
-                    if not f.is_file() or f.read_text() != render_file(rel, e):
+                    if not f.is_file() or f.read_bytes() != render_file(rel, e, bodies.get(rel, ""), NON_ASCII if enc else "") \
+                            .encode(enc or "ascii"):
                         probs.append(f"{rel} (copy_subdir: {item} of {src}) was not copied")
     # other files copied beside the pages of their directory
     for rel, e in files_of(es):
@@ -568,7 +584,8 @@ def e2e_problems(es, bodies, pages, res, w, stats=None, proj=()):
 
 def end_to_end(chk, rng, nproj):
     cases, infos = [], []
-    stats = {"runs": 0, "pages": 0, "links_checked": 0, "max_depth": 0, "with_project_copy_subdir": 0}
+    stats = {"runs": 0, "pages": 0, "links_checked": 0, "max_depth": 0, "with_project_copy_subdir": 0,
+             "encodings": {}}
     for k in range(nproj):
         es = None
         proj = [rng.choice(["media", "images"])] if k % 2 else []
@@ -582,8 +599,10 @@ def end_to_end(chk, rng, nproj):
             add_overrides(rng, es)
         pages = spec_pages_py(es, proj=proj)
         bodies = make_bodies(rng, pages)
-        res, fl, log, err, w = full_run(es, bodies, {"copy_subdir": proj[0]} if proj else None)
+        enc = ENCODINGS[k % 3] if k % 4 else None
+        res, fl, log, err, w = full_run(es, bodies, {"copy_subdir": proj[0]} if proj else None, enc)
         try:
+            stats["encodings"][str(enc)] = stats["encodings"].get(str(enc), 0) + 1
             stats["runs"] += 1
             stats["pages"] += len(pages)
             stats["with_project_copy_subdir"] += bool(proj)
@@ -591,15 +610,16 @@ def end_to_end(chk, rng, nproj):
                       sample={"e2e_files": sorted(r for r, _ in files_of(es)), "pages": [o for _, o in pages]})
             if err:
                 chk.violation("failing-input", {"what": "FORD failed on a valid page directory", "error": err,
-                                                "log": log[-1500:], "tree": es, "bodies": bodies, "proj": proj}, True)
+                                                "log": log[-1500:], "tree": es, "bodies": bodies, "proj": proj,
+                                                "encoding": enc}, True)
                 continue
-            probs = e2e_problems(es, bodies, pages, res, w, stats, proj)
+            probs = e2e_problems(es, bodies, pages, res, w, stats, proj, enc)
             if probs:
                 chk.violation("failing-input", {"what": "static pages of a full FORD run", "problems": probs[:10],
-                                                "tree": es, "bodies": bodies, "proj": proj}, True)
+                                                "tree": es, "bodies": bodies, "proj": proj, "encoding": enc}, True)
             if ascii_ok(es):
                 cases.append(case_term(proj, es, res, fl))
-                infos.append((proj, es, res, fl))
+                infos.append((proj, es, res, fl, enc))
         finally:
             w.__exit__()
     chk.extra["end_to_end"] = stats
@@ -671,8 +691,9 @@ def evaluate(chk, cases, infos, what):
         return
     chk.traces += len(cases)
     for idx, code in sorted(res.items()):
-        proj, es, ires, fl = infos[idx]
+        proj, es, ires, fl, enc = infos[idx]
         payload = {"what": what, "proj": proj, "tree": es, "impl_tree": ires, "impl_files": fl, "code": code,
+                   "encoding": enc,
                    "meaning": "bit0 model!=impl, bit1 impl violates the Spec"}
         chk.disagreements += 1
         if code & 2:
@@ -715,14 +736,23 @@ def run(chk):
         proj = rng.choice([[], [], ["media"], ["images", "sub"], ["a"], ["zed", "images"], ["sub"]])
         inputs.append((proj, es))
     cases, infos = [], []
-    dist = {"err": 0, "none": 0, "tree": 0, "depth": {}, "pages": 0}
-    for proj, es in inputs:
+    dist = {"err": 0, "none": 0, "tree": 0, "depth": {}, "pages": 0, "encodings": {}}
+    for i, (proj, es) in enumerate(inputs):
         if not ascii_ok(es):
             continue
-        ires, fl, log = impl_direct(es, proj)
+        # every third directory carries non-ASCII text and is read with the `encoding` option
+        enc = ENCODINGS[(i // 3) % 3] if i % 3 == 2 else None
+        dist["encodings"][str(enc)] = dist["encodings"].get(str(enc), 0) + 1
+        ires, fl, log = impl_direct(es, proj, enc)
         if isinstance(ires, str) and ires.startswith("EXC-WRITE"):
-            chk.violation("failing-input", {"what": "writing the pages failed", "tree": es, "impl": ires}, True)
+            chk.violation("failing-input", {"what": "writing the pages failed", "tree": es, "impl": ires,
+                                            "encoding": enc}, True)
             continue
+        if enc and isinstance(ires, dict):
+            bad = [n["title"] for n in preorder(ires) if n["title"] != f"T:{n['src']} {NON_ASCII}"]
+            if bad:
+                chk.violation("failing-input", {"what": f"page titles written in {enc} are not decoded as such",
+                                                "titles": bad[:5], "tree": es, "proj": proj, "encoding": enc}, True)
         npages = len(list(preorder(ires))) if isinstance(ires, dict) else 0
         depth = max((len(n["loc"]) for n in preorder(ires)), default=0) if isinstance(ires, dict) else 0
         dist["err" if isinstance(ires, str) and ires != "None" else "none" if ires == "None" else "tree"] += 1
@@ -732,7 +762,7 @@ def run(chk):
                   sample={"files": sorted(r for r, _ in files_of(es)),
                           "pages": [n["path"] for n in preorder(ires)] if isinstance(ires, dict) else ires})
         cases.append(case_term(proj, es, ires, fl))
-        infos.append((proj, es, ires, fl))
+        infos.append((proj, es, ires, fl, enc))
     chk.extra["generator_distribution"] = dist
     evaluate(chk, cases, infos, "get_page_tree + PagetreePage.writeout on a generated page directory")
     e2e_cases, e2e_infos = end_to_end(chk, rng, 22 if quick else 200)
@@ -757,16 +787,17 @@ def _replay(chk, rep):
     es, proj = rep["tree"], rep.get("proj", [])
     if "bodies" in rep:
         proj = rep.get("proj") or []
-        res, fl, log, err, w = full_run(es, rep["bodies"], {"copy_subdir": proj[0]} if proj else None)
+        res, fl, log, err, w = full_run(es, rep["bodies"], {"copy_subdir": proj[0]} if proj else None,
+                                        rep.get("encoding"))
         try:
             probs = [f"FORD failed: {err}"] if err else e2e_problems(es, rep["bodies"], spec_pages_py(es, proj=proj),
-                                                                      res, w, None, proj)
+                                                                      res, w, None, proj, rep.get("encoding"))
         finally:
             w.__exit__()
         print("full run:", err, "pages:", [n["path"] for n in preorder(res)] if isinstance(res, dict) else res)
         print("problems now:", probs[:10])
         return 1 if probs else 0
-    ires, fl, log = impl_direct(es, proj)
+    ires, fl, log = impl_direct(es, proj, rep.get("encoding"))
     print("impl tree:", [n["path"] for n in preorder(ires)] if isinstance(ires, dict) else ires)
     print("impl files:", fl)
     chk.build(["theories/Corr/C17.vo"])
@@ -783,7 +814,8 @@ def finish(chk):
         trusted_base=["Coq 8.16.1 kernel (vm_compute for case evaluation and witnesses)",
                       "hand-written model Out/PageTree.v", "harness/props/c17.py generators, renderer of page "
                       "directories, adapters, HTML link walker",
-                      "7-bit names without '/', metadata given as repeated 'key: value' lines"],
+                      "7-bit file names without '/', metadata given as repeated 'key: value' lines; page titles and bodies may carry "
+                      "non-ASCII text (every third directory, written in latin-1 / cp1252 / utf-8 and read with the `encoding` option)"],
         rule="page directories (depth<=3, <=5 entries per directory) with index/no index, titled/untitled, "
              "hidden/backup, non-Markdown files, ordered_subpage valid/partial/duplicated/missing, copy_subdir; "
              "distinct = distinct (project list, tree) with at least two pages; plus full FORD runs with a link walker",
